@@ -10,7 +10,7 @@ ID = "C19"
 LEVEL = "exploration"
 RULE = (
     "the finite matrix target {module function, instance method, classmethod, staticmethod, plain attribute} x "
-    "replacement {default mock, plain function, bound method, callable object, an explicitly passed Mock, new_callable=, non-callable, classmethod(f), staticmethod(f) - the last two on class attributes only} x "
+    "replacement {default mock, a strict default mock (spec_set=True: only entering and restoring are examined - a patch that cannot be entered must still leave the original in place), plain function, bound method, callable object, an explicitly passed Mock, new_callable=, non-callable, classmethod(f), staticmethod(f) - the last two on class attributes only} x "
     "activation {context manager, function decorator, class decorator (goes through patcher.copy()), start/stop} x exit path {normal, exception, stop(), stopall()} x "
     "composition {single, nested on the same target with a second replacement, nested with the SAME replacement object, sequential, the same patcher object activated a second time} x entry point {patch('mod.attr'), patch.object} is "
     "ENUMERATED COMPLETELY on a synthetic module registered in sys.modules. Class attributes are reached through the owner, a subclass, an instance of each and the owner again during the same patch. Inside the patch the sync call, "
@@ -23,7 +23,7 @@ ASSUMPTIONS = ["unittest.mock itself is trusted"]
 UNIT_TIMEOUT = {"quick": 200, "thorough": 600}
 
 TARGETS = ["fn", "meth", "cmeth", "smeth", "const"]
-REPLS = ["default", "function", "bound", "callable_obj", "explicit_mock", "new_callable", "noncallable", "classmethod_fn", "staticmethod_fn"]
+REPLS = ["default", "function", "bound", "callable_obj", "explicit_mock", "new_callable", "noncallable", "classmethod_fn", "staticmethod_fn", "spec_set"]
 ACTS = ["with", "decorator", "classdeco", "startstop"]
 EXITS = ["normal", "exception", "stopall"]
 COMPS = ["single", "nested", "nested_same_replacement", "sequential", "same_patcher_again"]
@@ -135,6 +135,9 @@ def make_replacement(kind, rec):
         return {"new_callable": mock.MagicMock}, "mock"
     if kind == "noncallable":
         return {"new": 42}, None
+    if kind == "spec_set":
+        # a strict default mock: whether or not such a patch can be entered, the target must be restored
+        return {"spec_set": True}, "mock"
     if kind in ("classmethod_fn", "staticmethod_fn"):
         def new(*args, **kwargs):
             rec.calls.append((args, tuple(sorted(kwargs.items()))))
@@ -245,6 +248,8 @@ def run_cell(target, repl, act, exit_path, comp, entry):
     nconv = [0]
 
     shared_kw = {}
+    entry_ok = []
+    entry_failed = []
 
     def mk(rec, same_as_outer=False):
         if same_as_outer and "kw" in shared_kw:
@@ -259,6 +264,25 @@ def run_cell(target, repl, act, exit_path, comp, entry):
     def use(p, rec, depth=0):
         """Activate patcher p, check inside, leave through exit_path. Returns nothing; appends violations."""
         given_new = getattr(p, "_c19_new", None)
+        if repl == "spec_set":
+            # only entry and restoration are examined for this one
+            try:
+                if act == "with":
+                    with p:
+                        entry_ok.append(1)
+                elif act in ("decorator", "classdeco"):
+                    if act == "decorator":
+                        p(lambda *a: entry_ok.append(1))()
+                    else:
+                        T = p(type("T", (object,), {"test_it": lambda self, *a: entry_ok.append(1)}))
+                        T().test_it()
+                else:
+                    p.start()
+                    entry_ok.append(1)
+                    p.stop()
+            except BaseException as e:
+                entry_failed.append(exc_desc(e))
+            return
         if act == "with":
             try:
                 with p as entered:
@@ -364,8 +388,10 @@ def cells():
                     if e == "stopall" and a != "startstop":
                         continue
                     for comp in COMPS:
-                        if comp == "nested_same_replacement" and r in ("default", "new_callable"):
+                        if comp == "nested_same_replacement" and r in ("default", "new_callable", "spec_set"):
                             continue  # those create a fresh mock per patch; nothing to share
+                        if r == "spec_set" and comp in ("nested",):
+                            continue
                         if r in ("classmethod_fn", "staticmethod_fn") and t in ("fn", "const"):
                             continue  # descriptors are only meaningful as class attributes
                         for entry in ENTRIES:
